@@ -54,3 +54,11 @@ reg("C08", MC, "explicit-state exploration of call histories on one solver objec
     "(returned fields, counters, solver.Qn, monitor records) must be bit-identical to the same probe on a fresh object, to sibling probes "
     "differing only in save lists or monitors, and solve(N)+restart(M) to solve(N+M); monitor records are recomputed from a reference trajectory.",
     "restart equivalence on the same object; a reused monitor dictionary accumulates per call", "DESIGN.md 3/C08")
+reg("C01", EX, "small-scope exhaustive enumeration of cell data x meshes x configurations through the real rhs; BFS over real step() transitions for the solve-level claim",
+    "Every assignment of a cell-state alphabet to every mesh with n<=4 cells (all width vectors over {1/2,1,2}, uniform, refined) x 6 models "
+    "x every registered flux x 12-16 reconstructions x periodic/wall/dirichlet/every Euler inlet-outlet on either side is evaluated once with "
+    "the real rhs and sum(vol*R) compared with the boundary fluxes (0 for periodic; mass/energy/depth 0 for walls); 2D: all assignments on "
+    "grids {1,2,3}^2 x 2 fluxes x 6 reconstructions x 7 boundary sets with boundary faces recomputed from the numbering; solve level: BFS "
+    "depth 3 (implicit quick: 2) over (integrator, CFL) transitions of every integrator class from every non-uniform assignment, 1D and 2D.",
+    "alphabet lattice only; open-boundary fluxes read from the 'flux' attribute; inadmissible reconstructions counted and skipped; implicit classes to 1e-6(1+CFL)",
+    "DESIGN.md 3/C01")
